@@ -73,8 +73,8 @@ PROPS = {
         title='Every produced registry is dense and closed under references',
         level='proof',
         technique='Verus data-structure invariant + trait-level contract on every into_portable impl; retain closure/cardinality contract; Kani bounded stand-ins for 3 closure functions',
-        level_text='Registry::inv (every stored definition is filed under an in-range id and all ids it mentions are in range) and the pay-back clause (a call leaves a definition for exactly the ids it interned) are proved for register_type / intern_type_id and inherited by all 14 IntoPortable impls with MetaType::type_info() unconstrained, so density and closure hold after every top-level call for every type with type info (lemma_dense_step, lemma_dense_closed); resolve returns exactly the entry at the position; the builder is proved a duplicate-free list; retain is proved to keep all ids in range of a registry of matching cardinality.',
-        level_note='Assumed contracts: BTreeMap entry API, lawful Ord/Clone of key types, mem::replace. Left external in Verus with assumed contracts (bounded stand-ins, not counted): Registry::register_types, map_into_portable, TypeParameter::into_portable (closures capturing &mut) and PortableRegistryBuilder::finish (enumerate). From<Registry> for PortableRegistry IS verified (as an identical-text inherent twin, tuple-pattern closure rewritten to a let, rule R8) under the assumption that BTreeMap iterates in ascending key order. Not covered: registries obtained by decoding (decoder out of reach). Partial correctness for registration. All id guarantees up to 2^32 entries.',
+        level_text='Registry::inv (every stored definition is filed under an in-range id and all ids it mentions are in range) and the pay-back clause (a call leaves a definition for exactly the ids it interned) are proved for register_type / intern_type_id and inherited by all 14 IntoPortable impls with MetaType::type_info() unconstrained, so density and closure hold after every top-level call for every type with type info (lemma_dense_step, lemma_dense_closed); resolve returns exactly the entry at the position; the builder is proved a duplicate-free list; retain on a well-formed registry is proved to return a well-formed registry (reg_wf: entry i carries id i and every referenced id resolves; see C10).',
+        level_note='Assumed contracts: BTreeMap entry API, lawful Ord/Clone of key types, mem::replace. Left external in Verus with assumed contracts (bounded stand-ins, not counted): Registry::register_types, map_into_portable, TypeParameter::into_portable (closures capturing &mut) and PortableRegistryBuilder::finish (enumerate). From<Registry> for PortableRegistry IS verified (as an identical-text inherent twin, tuple-pattern closure rewritten to a let, rule R8) under the assumption that BTreeMap iterates in ascending key order. Registries obtained by decoding the output of the library: by theorem_roundtrip (unit codec, C07) the decoded value EQUALS the encoded registry, so it inherits density and closure - that theorem is part of the obligations of this property only through C07, not re-proved here. Partial correctness for registration. All id guarantees up to 2^32 entries.',
         verus=[('interner', INTERNER_ITEMS), ('registry', REGISTRY_ITEMS + ['tmpl::lemma_dense_*', 'tmpl::lemma_img_closed', 'tmpl::lemma_*_mono']),
                ('registry_impls', IMPL_ITEMS),
                ('portable', ['PortableRegistry::resolve', 'PortableRegistryBuilder::*', 'PortableType::new', 'Registry::types',
@@ -110,8 +110,8 @@ PROPS = {
         title='retain keeps exactly the reachable sub-registry, renumbered consistently',
         level='proof',
         technique='Verus: recursive function contract with decreases measure on the extracted retain / retain_type, loop invariants on all seven loops',
-        level_text='Proved on the real text of retain and its nested retain_type for every well-formed registry and every filter: no out-of-bounds access, termination (decreases n - |mapping|) on cyclic graphs, the mapping only grows, maps old in-range ids to new in-range ids, and |mapping| = |new registry|.',
-        level_note='CURRENT SCOPE: safety, termination, cardinality and range of the mapping. The full functional clauses (exactly the reachable ids, entries renamed through the map, nothing else changed) are being added; until then a mutation that keeps cardinalities intact may go unnoticed. Assumed: mem::replace contract, vstd BTreeMap specs.',
+        level_text='Proved on the real text of retain and its nested retain_type, for every well-formed registry and every filter (an arbitrary FnMut): no out-of-bounds access; termination on cyclic graphs (decreases n - |mapping|); the result is again well-formed (entry i carries id i, every referenced id resolves); the returned map is injective, its domain has as many elements as the new registry, every new id has a pre-image (bijection onto the new ids); every retained entry equals its original with each referenced id replaced through the map and nothing else changed (entry_ren over all eight definition kinds, parameters, fields and variant fields) - so everything a retained entry references is retained too; every id the filter accepts is retained, and every retained id is reachable in the old registry from an accepted id (accepted_retained / retained_reachable).',
+        level_note='The filter is an arbitrary FnMut; Verus models each call as replacing the closure state, so "accepts i" is phrased over fs[i], the state the filter had when it was asked about i - for a filter whose answers do not depend on hidden state this is the statement as given. Loop invariants on all seven loops; rule R6 (continue in for-loops). Assumed: mem::replace contract (A3), vstd BTreeMap specs, machine integers (A7).',
         verus=[('retain', ['PortableRegistry::retain', 'tmpl::lemma_*'])],
         kani_quick=[], kani_thorough=[],
         assumptions=['A3', 'A7', 'VSTD', 'TOOLS'],
